@@ -520,6 +520,10 @@ pub fn c12(tier: &str) -> i32 {
         p.toggles = tick == 2;
         // off-grid neighbours of grid values
         p.offgrid_prices = vec![2 * tick + 1, 4 * tick - 1];
+        if u32::MAX % tick != 0 {
+            // the largest representable price is off the grid for this tick size
+            p.offgrid_prices.push(u32::MAX);
+        }
         plans.push(plan(
             &format!("tick {}: on/off-grid create, create_and_place, modify", tick),
             p,
@@ -573,6 +577,7 @@ pub fn c13(tier: &str) -> i32 {
         &crate::absx::ClosureCfg { label: "C13: trading flag in the key (crossed books reachable)", max_rest: if t { 3 } else { 2 }, max_vol: 2, modify: true, toggles: true, create: false, redundant: false, ties: false, prices: 3 },
         t,
     );
+    crate::marketx::c13_market_part(&mut out, t);
     crate::envprops::c13_env_part(&mut out, t);
     out.finish()
 }
